@@ -9,8 +9,8 @@ def ddsHex (t : List Char) : String := bytesToHex (t.map fun c => UInt8.ofNat c.
 def ddsText? (s : Sexp) : Option (List Char) := (asBytes? s).map ddsChars
 
 def ddsBase? : Sexp → Option BaseV
-  | list [atom "b", n, dt, list sh, list dims] => do
-    pure ⟨← ddsText? n, ← ddsText? dt, ← sh.mapM asInt?, ← dims.mapM ddsText?⟩
+  | list [atom "b", n, dt, list sh, list dims, nd] => do
+    pure ⟨← ddsText? n, ← ddsText? dt, ← sh.mapM asInt?, ← dims.mapM ddsText?, (← asNat? nd) != 0⟩
   | _ => none
 
 partial def ddsTmpl? : Sexp → Option Tmpl
@@ -25,7 +25,7 @@ def ddsDs? : Sexp → Option Dataset
 
 def ddsBaseS (b : BaseV) : Sexp :=
   list [atom "b", atom (ddsHex b.name), atom (ddsHex b.dt), list (b.shape.map fun n => atom (toString n)),
-        list (b.dims.map fun d => atom (ddsHex d))]
+        list (b.dims.map fun d => atom (ddsHex d)), atom (if b.nodata then "1" else "0")]
 
 partial def ddsTmplS : Tmpl → Sexp
   | .base b => ddsBaseS b
